@@ -54,6 +54,7 @@ def run_worker_restarting(binary, args, timeout=3600, heavy=False, max_restarts=
     """runs a worker to completion, restarting it after each case that killed it; returns (violations, [summaries], [crashes])"""
     viols, sums, crashes = [], [], []
     start = 0
+    hangs = 0
     for _ in range(max_restarts):
         v, s, c = run_worker(binary, args, timeout, heavy, start)
         viols += v
@@ -62,6 +63,10 @@ def run_worker_restarting(binary, args, timeout=3600, heavy=False, max_restarts=
         if not c:
             break
         crashes.append(c)
+        if (c.get("abort") or {}).get("abort") == "timeout":
+            hangs += 1
+            if hangs >= 3:
+                break   # a tree on which parsers hang again and again: three witnesses per worker are enough, the rest of the workload is skipped
         case = (c.get("abort") or {}).get("case")
         if case is None or c["timed_out"]:
             break
